@@ -139,6 +139,13 @@ local function mk(id, res)
   emit("mark", id)
   return o
 end
+local function mkr(id)
+  local mt
+  mt = {__gc = function(o) o.n = o.n + 1 emit("gcr", o.id, o.n) if o.n == 1 then setmetatable(o, mt) emit("rearm", o.id) end end}
+  local o = setmetatable({id = id, n = 0}, mt)
+  emit("mark", id)
+  return o
+end
 local function remark(o)
   setmetatable(o, {__gc = function(o) emit("gc2", o.id, inctx()) end})
   emit("mark", o.id)
@@ -157,10 +164,11 @@ func (g *gcGen) stmts(n int) {
 		if g.budget < 0 {
 			return
 		}
-		w := []int{5, 3, 3, 3, 3, 2, 2, 2, 1, 3, 1, 2}
+		w := []int{5, 3, 3, 3, 3, 2, 2, 2, 1, 3, 1, 2, 2}
 		if g.depth >= 1 {
 			w[10] = 0
 			w[11] = 0 // the io library is not allowed under limits
+			w[12] = 0
 		}
 		if g.depth >= 2 {
 			w[6], w[7] = 0, 0
@@ -243,6 +251,16 @@ func (g *gcGen) stmts(n int) {
 			}
 			g.ind--
 			g.ln(`end`)
+		case 12: // a finaliser that arms itself again the first time it runs: one run per marking
+			g.nid++
+			if g.t.Chance(1, 3) {
+				g.ln(`KEEP[#KEEP + 1] = mkr(%d)  -- kept rearm`, g.nid)
+			} else {
+				g.ln(`do local o = mkr(%d) end  -- dropped rearm`, g.nid)
+				if g.t.Chance(2, 3) {
+					g.ln(`collect(0)`)
+				}
+			}
 		case 11: // files opened through the io library and never closed by the script
 			g.files = true
 			// (io.lines(name) is left out: golua keeps that file in a Go closure, not in a userdata, so the
@@ -271,7 +289,7 @@ func (g *gcGen) stmts(n int) {
 	}
 }
 
-var reEv = regexp.MustCompile(`^(?:emit "(mark|gc2|gc|enter|ctx|sharedctx)"(?: (\S+))?(?: (\S+))?|(release) (\d+)|(closing|closed))`)
+var reEv = regexp.MustCompile(`^(?:emit "(mark|gc2|gcr|gc|rearm|enter|ctx|sharedctx)"(?: (\S+))?(?: (\S+))?|(release) (\d+)|(closing|closed))`)
 
 func runGC(ctx *core.RunCtx) {
 	g := &gcGen{t: ctx.Gen}
@@ -414,6 +432,9 @@ func runGC(ctx *core.RunCtx) {
 		hasGC     bool
 		kept      bool
 		res       bool
+		rearm     bool // its finaliser arms itself again the first time it runs
+		gcrN      int
+		gcrFirst  int
 		remark    bool // marked a second time with another finalizer
 		remarked  bool // the second marking happened
 		gcOld     int  // runs of the first finalizer
@@ -427,6 +448,9 @@ func runGC(ctx *core.RunCtx) {
 		var id int64
 		var b bool
 		switch {
+		case strings.Contains(l, "mkr("):
+			fmt.Sscanf(l[strings.Index(l, "mkr(")+4:], "%d", &id)
+			objs[id] = &info{rearm: true, kept: strings.Contains(l, "-- kept")}
 		case strings.Contains(l, "= mk(") || strings.HasPrefix(l, "do local o = mk("):
 			fmt.Sscanf(l[strings.Index(l, "mk(")+3:], "%d", &id)
 			objs[id] = &info{hasGC: true, kept: strings.Contains(l, "-- kept"), res: strings.Contains(l, "true)"), remark: strings.Contains(l, "-- remarked")}
@@ -458,8 +482,29 @@ func runGC(ctx *core.RunCtx) {
 		}
 		id, _ := strconv.ParseInt(arg, 10, 64)
 		switch kind {
+		case "gcr":
+			o := objs[id]
+			if o == nil {
+				continue
+			}
+			o.gcrN++
+			if o.gcrN == 1 {
+				o.gcrFirst = i
+			}
+			if arg2 != fmt.Sprint(o.gcrN) || o.gcrN > 2 {
+				fail("C18.X1", "finalised-twice", "value %d, whose finaliser arms itself again once, was finalised %d times (the finaliser counts %s)", id, o.gcrN, arg2)
+				return
+			}
+			if o.kept && i < closingAt {
+				fail("C18.X4", "finalised-while-reachable", "value %d is still referenced by the program but was finalised before the runtime was closed (event #%d)", id, i)
+				return
+			}
 		case "mark":
 			order++
+			if o := objs[id]; o != nil && o.rearm {
+				o.order = order
+				continue
+			}
 			if o := objs[id]; o != nil {
 				if o.order != 0 {
 					o.remarked = true
@@ -527,6 +572,18 @@ func runGC(ctx *core.RunCtx) {
 			continue // never created (its statement was not reached)
 		}
 		killed := ctxKilled[o.owner]
+		if o.rearm {
+			// armed twice: finalised twice by the time the runtime is closed, unless the first run only
+			// came with the close itself (what happens to a value armed while closing is left open)
+			if o.gcrN == 0 || (o.gcrFirst < closingAt && o.gcrN != 2) {
+				fail("C18.X1", "not-finalised-exactly-once", "value %d was armed %s but finalised %d times by the time the runtime was closed", id, map[bool]string{true: "twice (again from its first finalisation)", false: "once"}[o.gcrN > 0], o.gcrN)
+				return
+			}
+			if o.gcrN == 2 {
+				ctx.Count("probe.self re-armed finaliser ran a second time", 1)
+			}
+			continue
+		}
 		if o.hasGC {
 			if killed && o.gcN > 0 && o.gcAt > ctxClosedAt[o.owner] {
 				fail("C18.X1", "finalised-after-kill", "value %d of a killed context was finalised after the kill", id)
